@@ -172,6 +172,16 @@ func (s *WriterOffline) Close() error {
 		return fmt.Errorf("error while merging: %w", err)
 	}
 
+	if len(s.segIDs) == 0 {
+		// no documents were indexed: record an empty snapshot, so that
+		// the result is an index that can be opened (and is empty)
+		err = s.directory.Persist(ItemKindSnapshot, s.segCount, &Snapshot{epoch: s.segCount}, nil)
+		if err != nil {
+			return fmt.Errorf("error recording snapshot: %w", err)
+		}
+		return nil
+	}
+
 	// open the merged segment
 	data, closer, err := s.directory.Load(ItemKindSegment, s.segIDs[0])
 	if err != nil {
